@@ -127,6 +127,8 @@ type c04Entry struct {
 	posCheck bool
 	lo, hi   int
 	diags    []Diag
+	label    string // name used in signatures instead of the embedding's (template scalars)
+	strict   bool   // semantically clean by construction: a sentence must give no expression diagnostic at all
 }
 
 type c04Batch struct {
@@ -162,6 +164,13 @@ func (bt *c04Batch) Add(text string, emb int) {
 	case c04EmbIf:
 		if text == "" {
 			return // an empty condition is a YAML-level matter, not an expression
+		}
+		if i := strings.Index(text, "${{"); i >= 0 && strings.Contains(text[i:], "}}") {
+			// "${{" followed by "}}" (e.g. both inside string literals): whether this is one bare
+			// expression or a template with a placeholder is not said by the statement
+			x.cnt["lint_skipped_statement_silent"]++
+			x.set("silent_classes_seen", "bare-if-with-placeholder-looking-text")
+			return
 		}
 		value = text
 	case c04EmbRunTail:
@@ -251,6 +260,120 @@ func (bt *c04Batch) Add(text string, emb int) {
 	}
 }
 
+const (
+	c04KeyRun = iota
+	c04KeyEnv
+	c04KeyIf
+	c04KeyName
+	c04NKey
+)
+
+var c04KeyName_ = [c04NKey]string{"run", "env", "if", "name"}
+
+// AddTemplate embeds a complete template string (text with any number of ${{ }} placeholders) as the
+// value of a run:, env:, if: or name: key. Reference: placeholders are found left to right; a
+// placeholder starts at "${{" and ends with the first "}}" token behind it (string literals are
+// honoured by the tokenizer); the search for the next placeholder continues behind that end. If all
+// placeholders hold sentences no diagnostic is expected; otherwise exactly one, inside the first
+// placeholder that does not hold a sentence. clean: every placeholder is free of semantic errors by
+// construction, so not even a semantic diagnostic is tolerated.
+func (bt *c04Batch) AddTemplate(key int, value, what string, clean bool) {
+	x := bt.x
+	if bt.b == nil {
+		bt.reset()
+	}
+	if strings.ContainsAny(value, "\n\r") {
+		return
+	}
+	if key == c04KeyIf {
+		// must be a template for actionlint, not a bare condition
+		i := strings.Index(value, "${{")
+		if i < 0 || i > strings.Index(value, "}}") {
+			return
+		}
+	}
+	e := &c04Entry{emb: -1, text: what, value: value, label: "template-" + c04KeyName_[key], accept: true, strict: clean}
+	off, nph := 0, 0
+	rejStart, rejEnd := -1, -1
+	for {
+		i := strings.Index(value[off:], "${{")
+		if i < 0 {
+			break
+		}
+		start := off + i
+		after := value[start+3:]
+		v := c04Reference(after, false, x.ear, x.buf2)
+		if v.SelfCheck != "" {
+			x.selfCheck(v.SelfCheck)
+			return
+		}
+		if v.Silent != "" {
+			x.cnt["lint_skipped_statement_silent"]++
+			return
+		}
+		nph++
+		if !v.Accept {
+			e.accept = false
+			lr := &v.Lex
+			end := len(after)
+			switch {
+			case lr.Ended:
+				end = lr.EndOff
+			case lr.ErrOff >= 0 && !lr.Unterminated:
+				if j := strings.Index(after[lr.ErrOff:], "}}"); j >= 0 {
+					end = lr.ErrOff + j + 2
+				}
+			}
+			rejStart, rejEnd = start, start+3+end
+			break
+		}
+		if v.Contested != "" {
+			e.contest = v.Contested
+		}
+		off = start + 3 + v.Lex.EndOff
+	}
+	if nph == 0 {
+		return
+	}
+	scalar, quoted, oneToOne := c04YAMLScalar(value)
+	var p Pos
+	switch key {
+	case c04KeyRun:
+		bt.b.W("      - run: ")
+		p = bt.b.W(scalar)
+		bt.b.W("\n")
+	case c04KeyEnv:
+		bt.b.W("      - run: echo\n        env:\n          V: ")
+		p = bt.b.W(scalar)
+		bt.b.W("\n")
+	case c04KeyIf:
+		bt.b.W("      - run: echo\n        if: ")
+		p = bt.b.W(scalar)
+		bt.b.W("\n")
+	case c04KeyName:
+		bt.b.W("      - name: ")
+		p = bt.b.W(scalar)
+		bt.b.W("\n        run: echo\n")
+	}
+	e.line = p.Line
+	bt.byLine[e.line] = e
+	if !e.accept && oneToOne {
+		v0 := p.Col
+		if quoted {
+			v0++
+		}
+		e.posCheck = true
+		e.lo = v0 + utf8.RuneCountInString(value[:rejStart])
+		e.hi = v0 + utf8.RuneCountInString(value[:rejEnd])
+	}
+	x.cnt["template_scalars"]++
+	x.cnt[fmt.Sprintf("template_scalars_with_%d_placeholders", nph)]++
+	bt.entries = append(bt.entries, e)
+	if len(bt.entries) >= 48 {
+		bt.Flush()
+	}
+}
+
 func (bt *c04Batch) Flush() {
 	if bt.b == nil || len(bt.entries) == 0 {
 		return
@@ -289,7 +412,10 @@ func (bt *c04Batch) Flush() {
 	}
 	for _, e := range entries {
 		x.evals++
-		emb := c04EmbName[e.emb]
+		emb := e.label
+		if emb == "" {
+			emb = c04EmbName[e.emb]
+		}
 		detail := func() map[string]interface{} {
 			return map[string]interface{}{"embedding": emb, "text": e.text, "scalar_value": e.value, "line": e.line,
 				"reference_accepts": e.accept, "diags_on_that_line": diagStrings(e.diags), "src": src}
@@ -304,6 +430,9 @@ func (bt *c04Batch) Flush() {
 				if c04IsSyntaxMsg(d.Msg) {
 					nsyn++
 				}
+			}
+			if e.strict && nsyn == 0 && len(e.diags) > 0 {
+				c.Violation("C04:lint-diagnostic-on-clean-sentence:"+emb, fmt.Sprintf("every placeholder of %q (%s) holds a sentence without semantic errors, but linting gives: %s", e.value, emb, e.diags[0].String()), detail())
 			}
 			if nsyn > 0 {
 				sig := "C04:lint-syntax-diagnostic-on-sentence:" + emb
